@@ -878,6 +878,7 @@ impl<'tcx> Cx<'tcx> {
                     if of_trait {
                         let tr = tcx.impl_trait_ref(did).instantiate_identity().skip_norm_wip();
                         iv.push(("trait", J::Str(self.path(tr.def_id))));
+                        iv.push(("trait_key", J::Str(self.key(tr.def_id))));
                         iv.push(("trait_ref", J::Str(with_no_trimmed_paths!(format!("{}", tr)))));
                         iv.push(("trait_args", self.args(tr.args)));
                     }
